@@ -467,9 +467,18 @@ void RealVisitor::bvisit(const Constant &x)
 
 void RealVisitor::bvisit(const Add &x)
 {
+    unsigned non_real = 0;
     tribool b = tribool::tritrue;
     for (const auto &arg : x.get_args()) {
         arg->accept(*this);
+        if (is_false(is_real_)) {
+            // the sum of two non-real terms can be real
+            non_real++;
+            if (non_real > 1) {
+                is_real_ = tribool::indeterminate;
+                return;
+            }
+        }
         b = andwk_tribool(b, is_real_);
         if (is_indeterminate(b)) {
             break;
